@@ -211,6 +211,14 @@ class Package:
                 self.methods.setdefault(name, []).append(qual)
         # nested defs (decorator wrappers) are not indexed: treated through the transparent-decorator rule
 
+    def memo_global(self, qual):
+        """the process-wide object standing for the cache of an lru_cache / cache decorated function"""
+        key = ('<memo>', qual)
+        if key not in self.globals:
+            self.globals[key] = len(self.gnames)
+            self.gnames.append('memo cache of ' + qual)
+        return self.globals[key]
+
     def resolve_func(self, name, mod):
         """module-level function `name` as seen from module `mod`"""
         q = f'{mod}.{name}'
@@ -483,6 +491,14 @@ class FnTranslation:
     def translate(self):
         for i, p in enumerate(self.fn.allparams):
             self.emit('param', i, i)
+        memo = [d for d in self.fn.decorators if d.split('(')[0].split('.')[-1] in ('lru_cache', 'cache')]
+        if memo and type_of_annotation(self.fn.returns, self.pkg) != 'scalar':
+            # a memoised function hands out the object stored in its cache: the result is a process-wide object
+            # (a result annotated as number / string is immutable: benign memo, nothing shared)
+            g = self.pkg.memo_global(self.fn.qual)
+            m = self.newvar('memo!')
+            self.emit('global', m, g)
+            self.emit('alias', self.ret, (m,))
         self.block(self.fn.node.body)
         return {'stmts': self.dedup(self.stmts), 'nparams': self.nparams, 'ret': self.ret, 'names': self.names,
                 'qual': self.fn.qual, 'inplace': self.inplace, 'params': list(self.fn.allparams)}
@@ -1711,13 +1727,15 @@ def api_members():
     import peptacular as pt
     from peptacular.proforma.proforma_parser import ProFormaAnnotation
     out = []
-    for name, params in D.api_surface():
+    for name, params in D.api_surface(all_public=True):
         if name.startswith('ProFormaAnnotation.'):
             parts = name.split('.')
             if parts[-1] == 'setter':
                 qual = f'peptacular.proforma.proforma_parser.ProFormaAnnotation.{parts[1]}.setter'
             else:
                 qual = f'peptacular.proforma.proforma_parser.ProFormaAnnotation.{parts[1]}'
+        elif name.startswith('Fragmenter.'):
+            qual = f'peptacular.fragmentation.{name}'
         else:
             o = getattr(pt, name)
             qual = f'{o.__module__}.{o.__qualname__}'
